@@ -176,6 +176,15 @@ theorem C17_lucky_reset_forgets (f : Lucky) (ops : List LOp) :
     luckyRun f (.reset :: ops) = luckyRun { cap := f.cap, pick := f.pick, state := [] } ops := by
   simp [luckyRun, luckyStep, luckyReset]
 
+/-- …at any position of a history: the outputs after a `Reset` are those of a new filter of
+    the same configuration fed the rest of the history. -/
+theorem C17_lucky_reset_anywhere (f : Lucky) (pre post : List LOp) :
+    luckyRun f (pre ++ .reset :: post)
+      = luckyRun f pre ++ luckyRun { cap := f.cap, pick := f.pick, state := [] } post := by
+  rw [luckyRun_append, C17_lucky_reset_forgets]
+  have h := luckyFinal_config f pre
+  rw [h.1, h.2]
+
 /-- No-overflow side condition: for offsets of magnitude below `2^62` the median is the
     integer one — an element of the list, or `a + ⌊(b-a)/2⌋` for the two middle elements
     `a ≤ b` (no wrap-around). -/
@@ -347,5 +356,23 @@ theorem C17_ntimed_fresh_is_reset (e : Nat) (x : Sample) (ops : List NOp) :
       subst h0; rfl
     simp only [ntimedRun, ntimedStep, this]
   · exact C17_ntimed_epoch_change_is_reset _ e x ops h
+
+/-- **reset_forgets, all positions.** Wherever in a history a `Reset` occurs, or a `Do` that
+    sees a clock epoch different from the stored one, the outputs from there on are those of
+    a freshly constructed filter fed the rest of the history — they depend only on the
+    samples seen since. -/
+theorem C17_ntimed_reset_anywhere (s : Ntimed) (pre post : List NOp) (e : Nat) :
+    ntimedRun s (pre ++ .reset e :: post)
+      = ntimedRun s pre ++ ntimedRun Ntimed.fresh (.reset e :: post) := by
+  rw [ntimedRun_append, C17_ntimed_reset_forgets (ntimedFinal s pre) Ntimed.fresh]
+
+theorem C17_ntimed_epoch_change_anywhere (s : Ntimed) (pre post : List NOp) (e : Nat) (x : Sample)
+    (h : (ntimedFinal s pre).epoch ≠ e) :
+    ntimedRun s (pre ++ .sample e x :: post)
+      = ntimedRun s pre ++ ntimedRun Ntimed.fresh (.sample e x :: post) := by
+  rw [ntimedRun_append, C17_ntimed_epoch_change_is_reset _ e x post h,
+    C17_ntimed_reset_forgets (ntimedFinal s pre) Ntimed.fresh, ← C17_ntimed_fresh_is_reset]
+
+example : (ntimedFinal Ntimed.fresh exN).epoch ≠ 7 := by decide +kernel
 
 end ScionTime.C17
